@@ -150,6 +150,9 @@ func (r *FnRun) applyContract(st *State, x *ssa.Call, callee *ssa.Function, c *F
 			r.Outcomes = append(r.Outcomes, &Outcome{Kind: "panic", St: s2, Why: "callee:" + shortCallee(callee)})
 		}
 		st.assume(Not(p), "callee returns: "+c.Key)
+		if p.S == "true" {
+			return nil, true
+		}
 	}
 	if c.Opts["may_panic"] == "yes" {
 		s2 := st.clone()
@@ -296,7 +299,7 @@ func (r *FnRun) frameTerm(st *State, m string, ranges []modRange) Term {
 	ex = append(ex, inRanges(a, ranges))
 	for _, rg := range st.regions {
 		if rg.Fresh {
-			ex = append(ex, inRanges(a, []modRange{{rg.Base, rg.Size}}))
+			ex = append(ex, And(rg.Cond, inRanges(a, []modRange{{rg.Base, rg.Size}})))
 		}
 	}
 	return Forall([]Term{a}, Implies(Not(Or(ex...)), Ident(Select(st.memArr(m), a), Select(r.Entry.memArr(m), a))))
